@@ -224,8 +224,26 @@ def rule_wr_top(cx, rep, port):
         ok_cmp = True
     else:
         ok_cmp = False
-    tsucc = [s for s, lab in t.succ if lab == 'T']
-    refuses = tsucc and all(isinstance(s.ast, ast.Return) and s.ast.value is not None and is_false(s.ast.value) for s in tsucc)
+    # on every path on which the refusal test holds: False is returned and nothing was forwarded (decided on path summaries, so a
+    # single-exit layout with a result variable is the same as an early return)
+    from .. import pathsem
+    ps = pathsem.paths(fd)
+    refuses = None
+    if ps is not None:
+        refuses = True
+        seen_refusal = False
+        for q in ps:
+            holds_test = any(pol and ast.dump(atom) == ast.dump(t.ast) for atom, pol in q.conds) or any((not pol) and negated(t.ast) is not None and ast.dump(atom) == ast.dump(negated(t.ast)) for atom, pol in q.conds)
+            if not holds_test:
+                continue
+            seen_refusal = True
+            fwd = any(isinstance(x, ast.Call) and call_name(x) == 'self.subwriter.write' for e in list(q.env.values()) + q.calls + ([q.value] if q.value is not None else []) for x in ast.walk(e))
+            if q.kind != 'return' or fwd or not (q.value is not None and is_false(q.value)):
+                refuses = False
+        refuses = refuses and seen_refusal
+    if refuses is None:
+        tsucc = [s for s, lab in t.succ if lab == 'T']
+        refuses = tsucc and all(isinstance(s.ast, ast.Return) and s.ast.value is not None and is_false(s.ast.value) for s in tsucc)
     if not ok_cmp:
         rep.violated(_key(c, 'write') + ' refusal', t.ast, 'records are refused when `{}`: with `{}` the bound is off (TOP N must emit exactly the first N records, N=0 none)'.format(node_text(t.ast), op))
     elif not refuses:
@@ -434,10 +452,37 @@ def rule_wr_ucnt(cx, rep, port):
         if isinstance(n, ast.Call) and isinstance(n.func, ast.Attribute) and n.func.attr == 'set' and dotted(n.func.value) == 'self.records' and len(n.args) == 2:
             inits.append(n.args[1])
     init_one = [v for v in inits if (isinstance(v, ast.Constant) and v.value == 1) or (isinstance(v, ast.List) and v.elts and isinstance(v.elts[0], ast.Constant) and v.elts[0].value == 1)]
+    # the one-statement form: records[k] = records.get(k, 0) + 1   /   records.set(k, (records.get(k) || 0) + 1)
+    def get_default_plus(v):
+        """(default, increment) when v is `self.records.get(k, d) + n` (either operand order; JS `(get(k) || d) + n`)"""
+        if not (isinstance(v, ast.BinOp) and isinstance(v.op, ast.Add)):
+            return None
+        for a, b in ((v.left, v.right), (v.right, v.left)):
+            if isinstance(b, ast.Constant) and isinstance(b.value, int):
+                g_ = a
+                dflt = None
+                if isinstance(g_, ast.BoolOp) and isinstance(g_.op, ast.Or) and len(g_.values) == 2 and isinstance(g_.values[1], ast.Constant):
+                    g_, dflt = g_.values[0], g_.values[1].value
+                if isinstance(g_, ast.Call) and isinstance(g_.func, ast.Attribute) and g_.func.attr == 'get' and dotted(g_.func.value) == 'self.records':
+                    if len(g_.args) == 2 and isinstance(g_.args[1], ast.Constant):
+                        dflt = g_.args[1].value
+                    return dflt, b.value
+        return None
+    merged = [get_default_plus(v) for v in inits if get_default_plus(v) is not None]
+    other_incs = [n for n in walk_no_nested(wr) if isinstance(n, ast.AugAssign) and isinstance(n.op, ast.Add) and isinstance(n.value, ast.Constant) and n.value.value != 1]
+    other_inits = [v for v in inits if isinstance(v, ast.Constant) and v.value != 1]
     if len(incs) == 1 and len(init_one) == 1:
         rep.holds(_key(c, 'write') + ' counting', incs[0], 'multiplicity starts at 1 and is incremented by 1 per repeated record')
-    else:
+    elif len(merged) == 1 and not incs and merged[0] == (0, 1):
+        rep.holds(_key(c, 'write') + ' counting', wr, 'multiplicity = previous multiplicity (0 when absent) + 1')
+    elif merged and merged[0] != (0, 1):
+        rep.violated(_key(c, 'write') + ' counting', wr, 'multiplicity is computed as get(key, {}) + {}: the count is off'.format(*merged[0]))
+    elif other_incs or other_inits:
+        rep.violated(_key(c, 'write') + ' counting', (other_incs or [wr])[0], 'multiplicity bookkeeping is not "1 on first occurrence, +1 on each repeat" (increment / initial value other than 1)')
+    elif (len(incs) == 0) != (len(init_one) == 0):
         rep.violated(_key(c, 'write') + ' counting', wr, 'multiplicity bookkeeping is not "1 on first occurrence, +1 on each repeat" ({} increments, {} initialisations to 1)'.format(len(incs), len(init_one)))
+    else:
+        rep.undecided(_key(c, 'write') + ' counting', wr, 'multiplicity bookkeeping not recognised ({} increments, {} initialisations)'.format(len(incs), len(inits)))
     # key: immutable image of the record
     keys = [n.value for n in walk_no_nested(wr) if isinstance(n, ast.Assign) and isinstance(n.targets[0], ast.Name) and _image_call(n.value, rec)]
     rep.decide(bool(keys), _key(c, 'write') + ' key', wr, 'records are keyed by their immutable image', 'records are not keyed by the immutable image of the whole record')
@@ -495,14 +540,38 @@ def rule_wr_sort(cx, rep, port):
         if isinstance(seq, ast.Call) and dotted(seq.func) == 'range' and seq.args and isinstance(seq.args[-1], ast.Call) and dotted(seq.args[-1].func) == 'len':
             seq = seq.args[-1].args[0]
         if isinstance(seq, ast.Name):
-            defs = [n for n in walk_no_nested(fin) if isinstance(n, ast.Assign) and any(is_name(t_, seq.id) for t_ in n.targets)]
+            def source(v):
+                """looks through order-preserving projections / copies: [f(e) for e in X], map(f, X), list(X), X[:], X.slice()"""
+                while True:
+                    if isinstance(v, ast.ListComp) and len(v.generators) == 1 and not v.generators[0].ifs:
+                        v = v.generators[0].iter
+                    elif isinstance(v, ast.Call) and dotted(v.func) == 'list' and len(v.args) == 1:
+                        v = v.args[0]
+                    elif isinstance(v, ast.Call) and dotted(v.func) == 'map' and len(v.args) == 2:
+                        v = v.args[1]
+                    elif isinstance(v, ast.Call) and isinstance(v.func, ast.Attribute) and v.func.attr in ('map', 'slice') and len(v.args) <= 1:
+                        v = v.func.value
+                    elif isinstance(v, ast.Subscript) and isinstance(v.slice, ast.Slice) and v.slice.lower is None and v.slice.upper is None and v.slice.step is None:
+                        v = v.value
+                    else:
+                        return v
             other = []
-            for d in defs:
-                v = d.value
-                dn = dotted(v.func) if isinstance(v, ast.Call) else None
-                if dn == 'sorted' or dotted(v) == 'self.unsorted_entries':
+            seen_names = set()
+            work = [seq.id]
+            while work:
+                nm = work.pop()
+                if nm in seen_names:
                     continue
-                other.append(d)
+                seen_names.add(nm)
+                for d in [n for n in walk_no_nested(fin) if isinstance(n, ast.Assign) and any(is_name(t_, nm) for t_ in n.targets)]:
+                    v = source(d.value)
+                    dn = dotted(v.func) if isinstance(v, ast.Call) else None
+                    if dn == 'sorted' or dotted(v) == 'self.unsorted_entries':
+                        continue
+                    if isinstance(v, ast.Name) and v is not d.value:
+                        work.append(v.id)
+                        continue
+                    other.append(d)
             if other:
                 dn = dotted(other[0].value.func) if isinstance(other[0].value, ast.Call) else node_text(other[0].value, 60)
                 rep.violated(_key(c, 'finish') + ' sort', other[0], 'the emitted sequence can also come from `{}`: an ordering primitive other than the stable sort (+ reversal) does not keep ties in input order / DESC as the exact reverse'.format(dn))
